@@ -22,7 +22,7 @@ func VerifH_C10_string_protocol() {
 		}
 	}
 	verifCover("reached")
-	switch verifChoose(7) {
+	switch verifChoose(9) {
 	case 0:
 		v, ok := verifRun(vm, "s.search(/a/)")
 		if ok {
@@ -108,6 +108,67 @@ func VerifH_C10_string_protocol() {
 				}
 			}
 			verifAssert(v.String() == want, "15.5.4.11 replace (global): $` is the subject before the match, $' the subject after it")
+		}
+	case 7: // split by a separator that can match the empty string: /a*/ never yields empty pieces inside, [] for the empty subject
+		v, ok := verifRun(vm, "s.split(/a*/).join('|')")
+		if ok {
+			// ES5 15.5.4.14: scanning from q, an empty match at the current piece start
+			// advances; a non-empty or later match ends the piece
+			var pieces []string
+			p := 0
+			q := 0
+			for q < n {
+				e := q
+				for e < n && s[e] == 'a' {
+					e++
+				}
+				if e == p { // empty match where the piece starts: move on
+					q++
+					continue
+				}
+				pieces = append(pieces, s[p:q])
+				p, q = e, e
+			}
+			want := ""
+			if n > 0 {
+				pieces = append(pieces, s[p:])
+				for i, pc := range pieces {
+					if i > 0 {
+						want += "|"
+					}
+					want += pc
+				}
+			}
+			verifAssert(v.String() == want, "15.5.4.14 split by /a*/")
+			l, _ := vm.Run("s.split(/a*/).length")
+			lf, _ := l.ToFloat()
+			verifAssert(lf == float64(len(pieces)), "15.5.4.14 split by /a*/: number of pieces ([] for the empty subject)")
+		}
+	case 8: // split with a capture group and a limit
+		lim := verifChoose(4)
+		vm.Set("lim", lim)
+		v, ok := verifRun(vm, "s.split(/(a)/, lim).join('|')")
+		if ok {
+			var all []string
+			p := 0
+			for i := 0; i < n; i++ {
+				if s[i] == 'a' {
+					all = append(all, s[p:i], "a")
+					p = i + 1
+				}
+			}
+			all = append(all, s[p:])
+			if len(all) > lim {
+				all = all[:lim]
+			}
+			want := ""
+			for i, pc := range all {
+				if i > 0 {
+					want += "|"
+				}
+				want += pc
+			}
+			verifAssert(v.String() == want, "15.5.4.14 split with captures and a limit")
 		}
 	default:
 		v, ok := verifRun(vm, "var parts = s.split(/a/); parts.length")
